@@ -48,6 +48,34 @@ func main() {
 		seed := core.Seed()
 		id := *startID
 		nCases := 0
+		if bf, ok := f.(core.BatchFamily); ok {
+			var all []core.CaseIn
+			if err := core.ReadCases(inf, func(c core.CaseIn) error { all = append(all, c); return nil }); err != nil {
+				die("%v", err)
+			}
+			err := bf.ExecAll(all, seed, func(c core.CaseIn, cas, conc, obs any) {
+				id++
+				src := c.Src
+				if src == "" {
+					src = "tlc"
+				}
+				if cas == nil {
+					cas = c.Case
+				}
+				if e := w.Write(core.Rec{Fam: *fam, ID: id, CID: c.ID, Src: src, Seed: seed, Case: cas, Conc: conc, Obs: obs}); e != nil {
+					die("%v", e)
+				}
+			})
+			if err != nil {
+				die("exec %s: %v", *fam, err)
+			}
+			if err := w.Flush(); err != nil {
+				die("%v", err)
+			}
+			outf.Close()
+			fmt.Printf("{\"cases\":%d,\"lines\":%d}\n", len(all), w.N())
+			return
+		}
 		err = core.ReadCases(inf, func(c core.CaseIn) error {
 			nCases++
 			rng := core.RNG(seed, uint64(c.ID)*2654435761+uint64(len(c.Src)))
